@@ -39,3 +39,64 @@ Proof. exact KV.Proofs.CaptureProofs.capture_summary. Qed.
 Theorem C13_value_before_prefix : forall w T, wf_wave w -> strictly_increasing w ->
   exists n, n <= ntrans w /\ filter (fun t => tltb t T) (body w) = firstn n (body w).
 Proof. exact KV.Proofs.CaptureProofs.value_before_prefix. Qed.
+
+(** OP-LIST LEVEL (Proofs/WaveAccProofs.v).  [wacc] mirrors level_eval_cpu: for each op in order
+    abuf[a_loc] += nrise*a_wr + nfall*a_wf with the counts that op's evaluation returned. *)
+From KV Require Import Model.SimOps Model.WaveOps Model.WaveSimModel Model.WaveAcc.
+From KV Require Proofs.WaveCircuit Proofs.WaveAccProofs Proofs.WaveFlat.
+
+(* after ANY op list accumulator a holds its old value plus, for every op assigned to a, the weighted rising / falling
+   transitions of the waveform that op stored at the time it was evaluated *)
+Theorem C13_wacc_running : forall delays cap actrl,
+  KV.Proofs.WaveCircuit.good_delays delays -> KV.Proofs.WaveCircuit.good_caps cap ->
+  forall ops i (e : wenv) ab a, (forall k, wf_wave (e k)) -> a < length ab ->
+  nth a (snd (wacc_from delays cap actrl i ops e ab)) 0%Z = (nth a ab 0 + wsa_running delays cap actrl i ops e a)%Z.
+Proof. exact KV.Proofs.WaveAccProofs.wacc_running. Qed.
+
+(* the sum is over the waveforms found at the END, provided an op whose output index is written again later does not
+   accumulate ([acc_once]; evaluated per generated case by [acc_once_b]: SimOps re-writes only the scratch slot, a_loc = -1) *)
+Theorem C13_wacc_final : forall delays cap actrl,
+  KV.Proofs.WaveCircuit.good_delays delays -> KV.Proofs.WaveCircuit.good_caps cap ->
+  forall ops (e : wenv) ab a, (forall k, wf_wave (e k)) -> acc_once actrl 0 ops -> a < length ab ->
+  nth a (wacc delays cap actrl ops e ab) 0%Z = (nth a ab 0 + wsa_final actrl 0 ops (wexec delays cap ops e) a)%Z.
+Proof. exact KV.Proofs.WaveAccProofs.wacc_final. Qed.
+
+(* in particular for op lists that write every output index once *)
+Theorem C13_wacc_final_ssa : forall delays cap actrl,
+  KV.Proofs.WaveCircuit.good_delays delays -> KV.Proofs.WaveCircuit.good_caps cap ->
+  forall ops (e : wenv) ab a, (forall k, wf_wave (e k)) -> NoDup (map s_out ops) -> a < length ab ->
+  nth a (wacc delays cap actrl ops e ab) 0%Z = (nth a ab 0 + wsa_final actrl 0 ops (wexec delays cap ops e) a)%Z.
+Proof. exact KV.Proofs.WaveAccProofs.wacc_final_ssa. Qed.
+
+Theorem C13_acc_once_check_sound : forall actrl ops i, acc_once_b actrl i ops = true -> acc_once actrl i ops.
+Proof. exact KV.Proofs.WaveAccProofs.acc_once_b_sound. Qed.
+
+(* a signal carries the overflow mark iff an evaluation in its transitive fan-in dropped a transition (or a marked input reaches it) *)
+Theorem C13_ovf_reach : forall delays cap,
+  KV.Proofs.WaveCircuit.good_delays delays -> KV.Proofs.WaveCircuit.good_caps cap ->
+  forall ops (e : wenv) k, (forall j, wf_wave (e j)) ->
+  (terminator (wexec delays cap ops e k) = MaxOvl <-> ovf_reach delays cap ops e (ovf0 e) k = true).
+Proof. exact KV.Proofs.WaveAccProofs.ovf_reach_spec. Qed.
+
+Theorem C13_ovf_reach_clean : forall delays cap ops (e : wenv) (ov : nat -> bool),
+  dropped_total delays cap ops e = 0 -> (forall k, ov k = false) -> forall k, ovf_reach delays cap ops e ov k = false.
+Proof. exact KV.Proofs.WaveAccProofs.ovf_reach_clean. Qed.
+
+(* capture of any signal of any op list *)
+Theorem C13_circuit_capture : forall delays cap,
+  KV.Proofs.WaveCircuit.good_delays delays -> KV.Proofs.WaveCircuit.good_caps cap ->
+  forall ops (e : wenv) k T, (forall j, wf_wave (e j)) ->
+  let w := wexec delays cap ops e k in
+  let '(ini, a) := capture w T in
+  ini = bexec ops (fun j => init_val (e j)) k /\ k_fin a = bexec ops (fun j => final_val (e j)) k /\
+  k_eat a = earliest w /\ k_lst a = latest w /\ k_val a = value_before w T /\
+  (k_ovl a = true <-> ovf_reach delays cap ops e (ovf0 e) k = true).
+Proof. exact KV.Proofs.WaveAccProofs.circuit_capture. Qed.
+
+(* FLAT MEMORY: c_to_s after c_prop -- the PPO slot i, which aliases the tracked line l0, captures the line-level waveform of l0 *)
+Theorem C13_flat_capture : forall so delays actrl (P : nat -> Prop) (m : wmem) ab m' ab' T i l0 zl,
+  regions_ok so P (length m) -> w_c_prop so delays actrl m ab = Some (m', ab') ->
+  i < so_slen so -> P l0 -> locZ so l0 = Some zl ->
+  locZ so (n_tracked so + i) = locZ so l0 -> capN so (n_tracked so + i) = capN so l0 ->
+  nth i (w_c_to_s so m' T) None = Some (six (capture (wexec (dl_of delays) (capN so) (so_ops so) (env_of so m) l0) T)).
+Proof. exact KV.Proofs.WaveFlat.flat_capture. Qed.
